@@ -44,6 +44,12 @@ def catalog():
     add('net2_tanh', like='gauss', n_live=40, n_batch=20, n_networks=2, n_eff=60, f_live=0.15,
         nn=dict(hidden_layer_sizes=(5, 4), activation='tanh', max_iter=60), pool_s=3, ext='.hdf5',
         pathlib=True, discard=True)
+    add('cross_split', like='cross', n_live=100, n_batch=25, n_eff=100, f_live=0.1, n_points_min=6,
+        split_threshold=1.0)
+    add('vec_pool', like='gauss', blob='float', vectorized=True, pool_l=2, n_live=30, n_batch=14,
+        n_eff=80, f_live=0.1)
+    add('enlarge25', like='gauss', n_live=40, n_batch=20, n_eff=20, f_live=0.1, enlarge_per_dim=2.5,
+        discard=True, want='removed')
     add('half', like='half', n_live=40, n_batch=20, n_eff=120, f_live=0.1)
     add('plateau', like='plateau', n_live=40, n_batch=20, n_eff=120, f_live=0.1)
     add('wrap', like='wrap', n_live=40, n_batch=20, n_eff=120, f_live=0.1, periodic=[0])
